@@ -21,11 +21,11 @@
      store    Assets<T>[uuid]
      events   AssetEvent::{Added,Modified} of the id the react system has not read yet (each local
               insert AND each applied download / inline update produces one)
-     tok      the id is in pushed_handles_from_network.  It is a SET: one boolean, although several
-              events may be unread.  skip_network_handle_change removes it at the first event it
-              swallows: a second unread event is treated as a local change (defect S7).
-     served   this peer's HTTP cache entry of the id.  SyncAssetTransfer::request does NOTHING when
-              this peer's (mesh) cache holds the id (defect S12).
+     tok      pushed_handles_from_network[id]: a COUNTER (repair R1 of defect S7): every asset applied from
+              the network increments it, skip_network_handle_change decrements it at each event it
+              swallows; an event that finds the counter at 0 is a local change.
+     served   this peer's HTTP cache entry of the id.  SyncAssetTransfer::request no longer looks at it
+              (repair R2 of defect S12): an announcement always starts a download.
      pending  downloads started and not yet applied: the owner to fetch from
 
    What is abstracted away (documented, not modelled):
@@ -68,7 +68,7 @@ Definition clients (n : nat) : list peer := N.of_nat <$> seq 1 n.
 Record apeer := APeer {
   store : option content;
   events : nat;
-  tok : bool;
+  tok : nat;
   served : option content;
   pending : list peer
 }.
@@ -92,11 +92,11 @@ Inductive aevent :=
 Global Instance aevent_eq_dec : EqDecision aevent.
 Proof. solve_decision. Defined.
 
-Definition apeer0 : apeer := APeer None 0 false None [].
+Definition apeer0 : apeer := APeer None 0 0 None [].
 Definition getp (s : astate) (p : peer) : apeer := default apeer0 (ap s !! p).
 Definition pstore (s : astate) (p : peer) : option content := store (getp s p).
 Definition pevents (s : astate) (p : peer) : nat := events (getp s p).
-Definition ptok (s : astate) (p : peer) : bool := tok (getp s p).
+Definition ptok (s : astate) (p : peer) : nat := tok (getp s p).
 Definition pserved (s : astate) (p : peer) : option content := served (getp s p).
 Definition ppending (s : astate) (p : peer) : list peer := pending (getp s p).
 Definition link (s : astate) (a b : peer) : list peer := lget (alinks s) a b.
@@ -110,7 +110,7 @@ Definition dsts_of (s : astate) (p : peer) : list peer := if (p =? host)%N then 
 
 (* One AssetEvent of the id handled by react_on_changed_*:
      let Some(asset) = assets.get(id) else continue;
-     if track.skip_network_handle_change(id) { continue }      -- removes the token
+     if track.skip_network_handle_change(id) { continue }      -- consumes ONE token if there is one
      let url = sync_assets.serve_*(id, asset);  send {id, url} -- CURRENT content of the store
    second component: an announcement is sent *)
 Definition react1_peer (x : apeer) : apeer * bool :=
@@ -120,8 +120,10 @@ Definition react1_peer (x : apeer) : apeer * bool :=
       match store x with
       | None => (APeer None k (tok x) (served x) (pending x), false)
       | Some c =>
-          if tok x then (APeer (Some c) k false (served x) (pending x), false)
-          else (APeer (Some c) k false (Some c) (pending x), true)
+          match tok x with
+          | S t => (APeer (Some c) k t (served x) (pending x), false)
+          | O => (APeer (Some c) k 0 (Some c) (pending x), true)
+          end
       end
   end.
 
@@ -161,13 +163,10 @@ Definition astep (s : astate) (e : aevent) : option astate :=
       match link s src dst, ap s !! dst with
       | o :: rest, Some x =>
           let L := <[(src, dst) := rest]> (alinks s) in
-          (* SyncAssetTransfer::request *)
-          let x' := match served x with
-                    | Some _ => x
-                    | None => APeer (store x) (events x) (tok x) (served x) (pending x ++ [o])
-                    end in
+          (* SyncAssetTransfer::request: always starts the download, whatever this peer's cache holds *)
+          let x' := APeer (store x) (events x) (tok x) (served x) (pending x ++ [o]) in
           Some (AState (<[dst := x']> (ap s)) (aconn s)
-                       (* the host relays whatever request did *)
+                       (* the host relays, always *)
                        (if (dst =? host)%N then send_to L host (others src (aconn s)) [o] else L))
       | _, _ => None
       end
@@ -180,7 +179,7 @@ Definition astep (s : astate) (e : aevent) : option astate :=
           | o :: rest =>
               match pserved s o with
               | None => Some (set_peer s p (APeer (store x) (events x) (tok x) (served x) rest))   (* 404 *)
-              | Some c => Some (set_peer s p (APeer (Some c) (S (events x)) true (served x) rest))
+              | Some c => Some (set_peer s p (APeer (Some c) (S (events x)) (S (tok x)) (served x) rest))
               end
           end
       end
@@ -188,7 +187,7 @@ Definition astep (s : astate) (e : aevent) : option astate :=
       if (c =? host)%N || bool_decide (c ∈ aconn s) || pexists s c then None
       else
         let h := getp s host in
-        Some (AState (<[c := APeer pre 0 false pre []]> (<[host := serve_store h]> (ap s)))
+        Some (AState (<[c := APeer pre 0 0 pre []]> (<[host := serve_store h]> (ap s)))
                      (aconn s ++ [c])
                      (match store h with
                       | Some _ => push_link (alinks s) host c [host]
@@ -208,7 +207,7 @@ Definition ainit (n : nat) : astate :=
 
 (* ---------- quiescence ------------------------------------------------------------------------- *)
 
-Definition apeer_idle (x : apeer) : Prop := events x = 0%nat /\ tok x = false /\ pending x = [].
+Definition apeer_idle (x : apeer) : Prop := events x = 0%nat /\ tok x = 0%nat /\ pending x = [].
 Definition aquiescent (s : astate) : Prop :=
   map_Forall (fun _ l => l = []) (alinks s) /\ map_Forall (fun _ x => apeer_idle x) (ap s).
 Global Instance apeer_idle_dec x : Decision (apeer_idle x).
@@ -238,11 +237,6 @@ Definition only_publisher (w : peer) (tr : list aevent) : Prop := Forall (fun p 
 Definition no_joins (tr : list aevent) : Prop := joins tr = [].
 Definition fresh_joins (tr : list aevent) : Prop := Forall (fun j => j.2 = None) (joins tr).
 
-(* joins the single-publisher theorems allow: fresh clients when the host publishes, none when a client does
-   (see C06_host_stale_after_join_refuted, join_during_download_refuted) *)
-Definition joins_ok (w : peer) (tr : list aevent) : Prop :=
-  if decide (w = host) then fresh_joins tr else no_joins tr.
-
 (* neither a publication nor a join *)
 Definition plain (e : aevent) : Prop :=
   match e with APublish _ _ | AJoin _ _ => False | _ => True end.
@@ -256,39 +250,36 @@ Fixpoint scan (bad : astate -> aevent -> bool) (s : astate) (tr : list aevent) :
   | e :: tr => bad s e || match astep s e with Some s' => scan bad s' tr | None => false end
   end.
 
-(* S7: a download is applied on p while an event of the id is still unread on p: afterwards two (or more)
-   events are covered by ONE token *)
-Definition bad_S7 (s : astate) (e : aevent) : bool :=
-  match e with
-  | ADownload p =>
-      match ppending s p with
-      | o :: _ => match pserved s o with Some _ => negb (Nat.eqb (pevents s p) 0) | None => false end
-      | [] => false
-      end
-  | _ => false
-  end.
-Definition known_S7 (s : astate) (tr : list aevent) : bool := scan bad_S7 s tr.
-
-(* S12: an announcement reaches a peer that serves the id itself: request() ignores it *)
-Definition bad_S12 (s : astate) (e : aevent) : bool :=
-  match e with
-  | ADeliver src dst =>
-      match link s src dst, pserved s dst with
-      | _ :: _, Some _ => true
-      | _, _ => false
-      end
-  | _ => false
-  end.
-Definition known_S12 (s : astate) (tr : list aevent) : bool := scan bad_S12 s tr.
-
 (* a client joins while the host is still downloading the id: the snapshot is built from Assets<T>,
-   the later completion is swallowed by the token: the joiner is never told *)
+   the later completion is swallowed by its token: the joiner is never told *)
 Definition bad_join_window (s : astate) (e : aevent) : bool :=
   match e with
   | AJoin _ _ => match ppending s host with [] => false | _ => true end
   | _ => false
   end.
 Definition known_join_window (s : astate) (tr : list aevent) : bool := scan bad_join_window s tr.
+
+(* the joins the C06 theorems allow: fresh clients, none of them inside the join window *)
+Definition joins_ok (s : astate) (tr : list aevent) : Prop :=
+  fresh_joins tr /\ known_join_window s tr = false.
+Global Instance joins_ok_dec s tr : Decision (joins_ok s tr).
+Proof. unfold joins_ok, fresh_joins. apply _. Defined.
+
+(* the publisher changes only in quiescent states: a publication by a peer other than the previous
+   publisher [w] happens in a quiescent state; the same peer may publish at any pace *)
+Fixpoint handover_at_quiescence (w : peer) (s : astate) (tr : list aevent) : bool :=
+  match tr with
+  | [] => true
+  | e :: tr =>
+      match astep s e with
+      | None => true
+      | Some s' =>
+          match e with
+          | APublish p _ => (bool_decide (p = w) || aquiescentb s) && handover_at_quiescence p s' tr
+          | _ => handover_at_quiescence w s' tr
+          end
+      end
+  end.
 
 (* every publication and every join happens in a quiescent state ("drain-separated") *)
 Fixpoint ops_at_quiescence (s : astate) (tr : list aevent) : bool :=
@@ -313,6 +304,9 @@ Definition sent1 (s : astate) (e : aevent) : nat :=
   | AJoin _ _ => match pstore s host with Some _ => 1 | None => 0 end
   | _ => 0
   end.
+(* an AReact1 step of p that ORIGINATES an announcement (a local change, not a relay, not a snapshot) *)
+Definition originates (s : astate) (p : peer) : bool := (react1_peer (getp s p)).2.
+
 Fixpoint sent_react (k : nat) (s : astate) (p : peer) : nat :=
   match k with
   | O => 0
@@ -353,7 +347,7 @@ Example ex_client_publishes_runs :
 Proof. vm_compute. reflexivity. Qed.
 Example ex_client_publishes_traffic :
   total_sent (ainit 2) ex_client_publishes = 2%nat /\ total_downloads (ainit 2) ex_client_publishes = 2%nat /\
-  known_S7 (ainit 2) ex_client_publishes = false /\ known_S12 (ainit 2) ex_client_publishes = false /\
+  known_join_window (ainit 2) ex_client_publishes = false /\
   ops_at_quiescence (ainit 2) ex_client_publishes = true.
 Proof. vm_compute. auto. Qed.
 
@@ -365,8 +359,7 @@ Example ex_host_publishes :
   = Some ([Some 10; Some 10; Some 10; Some 10]%N, true).
 Proof. vm_compute. reflexivity. Qed.
 
-(* drain-separated overwrites by one publisher replicate: the receivers swallowed their event with the
-   token, so they never served, so request() proceeds *)
+(* drain-separated overwrites by one publisher replicate: the receivers swallowed their event with the token *)
 Example ex_overwrite_drained :
   (fun s => aview s [0; 1; 2]%N) <$>
   arun (ainit 2) (ex_client_publishes ++
@@ -396,7 +389,7 @@ Proof. vm_compute. reflexivity. Qed.
 Record mpeer := MPeer {
   mstore : option content;
   mevents : nat;
-  mtok : bool
+  mtok : nat
 }.
 
 Record mstate := MState {
@@ -415,23 +408,27 @@ Inductive mevent :=
 Global Instance mevent_eq_dec : EqDecision mevent.
 Proof. solve_decision. Defined.
 
-Definition mpeer0 : mpeer := MPeer None 0 false.
+Definition mpeer0 : mpeer := MPeer None 0 0.
 Definition mgetp (s : mstate) (p : peer) : mpeer := default mpeer0 (mp s !! p).
 Definition mpstore (s : mstate) (p : peer) : option content := mstore (mgetp s p).
 Definition mpevents (s : mstate) (p : peer) : nat := mevents (mgetp s p).
-Definition mptok (s : mstate) (p : peer) : bool := mtok (mgetp s p).
+Definition mptok (s : mstate) (p : peer) : nat := mtok (mgetp s p).
 Definition mlink (s : mstate) (a b : peer) : list content := lget (mlinks s) a b.
 Definition mdsts_of (s : mstate) (p : peer) : list peer := if (p =? host)%N then mconn s else [host].
 
-(* one AssetEvent<StandardMaterial> of the id: the message carries the CURRENT content of the store, not
-   the content at the time of the event *)
+(* one AssetEvent<StandardMaterial> of the id: one token of the counter swallows it; otherwise the message
+   carries the CURRENT content of the store, not the content at the time of the event *)
 Definition mreact1_peer (x : mpeer) : mpeer * option content :=
   match mevents x with
   | O => (x, None)
   | S k =>
       match mstore x with
       | None => (MPeer None k (mtok x), None)
-      | Some c => if mtok x then (MPeer (Some c) k false, None) else (MPeer (Some c) k false, Some c)
+      | Some c =>
+          match mtok x with
+          | S t => (MPeer (Some c) k t, None)
+          | O => (MPeer (Some c) k 0, Some c)
+          end
       end
   end.
 
@@ -467,7 +464,7 @@ Definition mstep (s : mstate) (e : mevent) : option mstate :=
       match mlink s src dst, mp s !! dst with
       | c :: rest, Some x =>
           let L := <[(src, dst) := rest]> (mlinks s) in
-          Some (MState (<[dst := MPeer (Some c) (S (mevents x)) true]> (mp s)) (mconn s)
+          Some (MState (<[dst := MPeer (Some c) (S (mevents x)) (S (mtok x))]> (mp s)) (mconn s)
                        (if (dst =? host)%N then send_to L host (others src (mconn s)) [c] else L))
       | _, _ => None
       end
@@ -489,7 +486,7 @@ Fixpoint mrun (s : mstate) (tr : list mevent) : option mstate :=
 Definition minit (n : nat) : mstate :=
   MState (list_to_map ((fun p => (p, mpeer0)) <$> (host :: clients n))) (clients n) ∅.
 
-Definition mpeer_idle (x : mpeer) : Prop := mevents x = 0%nat /\ mtok x = false.
+Definition mpeer_idle (x : mpeer) : Prop := mevents x = 0%nat /\ mtok x = 0%nat.
 Definition mquiescent (s : mstate) : Prop :=
   map_Forall (fun _ l => l = []) (mlinks s) /\ map_Forall (fun _ x => mpeer_idle x) (mp s).
 Global Instance mpeer_idle_dec x : Decision (mpeer_idle x).
@@ -515,23 +512,26 @@ Definition mplain (e : mevent) : Prop :=
 Global Instance mplain_dec e : Decision (mplain e).
 Proof. destruct e; simpl; apply _. Defined.
 
-Fixpoint mscan (bad : mstate -> mevent -> bool) (s : mstate) (tr : list mevent) : bool :=
+Definition mjoins (tr : list mevent) : list peer :=
+  omap (fun e => match e with MJoin c => Some c | _ => None end) tr.
+
+(* the publisher changes only in quiescent states (the same peer may publish at any pace) *)
+Fixpoint mhandover_at_quiescence (w : peer) (s : mstate) (tr : list mevent) : bool :=
   match tr with
-  | [] => false
-  | e :: tr => bad s e || match mstep s e with Some s' => mscan bad s' tr | None => false end
+  | [] => true
+  | e :: tr =>
+      match mstep s e with
+      | None => true
+      | Some s' =>
+          match e with
+          | MPublish p _ => (bool_decide (p = w) || mquiescentb s) && mhandover_at_quiescence p s' tr
+          | _ => mhandover_at_quiescence w s' tr
+          end
+      end
   end.
 
-(* S7 (materials): an inline update is applied on dst while an event of the id is still unread on dst *)
-Definition mbad_S7 (s : mstate) (e : mevent) : bool :=
-  match e with
-  | MDeliver src dst =>
-      match mlink s src dst with
-      | _ :: _ => negb (Nat.eqb (mpevents s dst) 0)
-      | [] => false
-      end
-  | _ => false
-  end.
-Definition mknown_S7 (s : mstate) (tr : list mevent) : bool := mscan mbad_S7 s tr.
+(* what an MReact1 step of p would ORIGINATE (a local change; not a relay, not a snapshot) *)
+Definition moriginates (s : mstate) (p : peer) : option content := (mreact1_peer (mgetp s p)).2.
 
 Fixpoint mops_at_quiescence (s : mstate) (tr : list mevent) : bool :=
   match tr with
@@ -545,7 +545,7 @@ Fixpoint mops_at_quiescence (s : mstate) (tr : list mevent) : bool :=
 
 Definition msent1 (s : mstate) (e : mevent) : nat :=
   match e with
-  | MReact1 p => match (mreact1_peer (mgetp s p)).2 with Some _ => length (mdsts_of s p) | None => 0 end
+  | MReact1 p => match moriginates s p with Some _ => length (mdsts_of s p) | None => 0 end
   | MDeliver src dst =>
       match mlink s src dst with
       | _ :: _ => if (dst =? host)%N then length (others src (mconn s)) else 0
